@@ -658,7 +658,8 @@ def run_loop(e1: int, e2: int, e3: int, end: int) -> bool:
     # labelled with that instant, never more than 1 us before it; startup/shutdown entries run exactly once at start/stop
     from vlib.world import mkworld, T0, SEC, BASE_DATE
     args, inst, st, sh = RUN_SPECS[P("spec")]
-    w = mkworld(P("legacy"))
+    with notrace():
+        w = mkworld(P("legacy"))
     try:
         early = [e1, e2, e3]
         w.env.early = lambda: early.pop(0) if early else 0
